@@ -406,3 +406,24 @@ func (sp *Space) Project(s State, atoms ...int) []string {
 	sort.Strings(out)
 	return out
 }
+
+// Summary renders, per atom, the set of values present in s (a non-relational view for traces).
+func (sp *Space) Summary(s State) string {
+	var parts []string
+	for i, a := range sp.Atoms {
+		seen := make([]bool, a.N)
+		for pt := 0; pt < sp.Size; pt++ {
+			if s.Has(pt) {
+				seen[sp.val(pt, i)] = true
+			}
+		}
+		var vs []string
+		for v, ok := range seen {
+			if ok {
+				vs = append(vs, a.Labels[v])
+			}
+		}
+		parts = append(parts, a.Name+"∈{"+strings.Join(vs, ",")+"}")
+	}
+	return strings.Join(parts, " ")
+}
